@@ -739,6 +739,21 @@ class Machine:
         if r and self.prog.items[r].kind == 'fn': return FnItem(c)
         m = re.match(r'^(\d+(?:\.\d+)?(?:[eE][-+]?\d+)?)f(32|64)$', c) or re.match(r'^(-?\d+(?:\.\d+)?(?:[eE][-+]?\d+)?)f(32|64)$', c)
         if m: return Opaque(('float', float(m.group(1))))
+        mc = re.match(r'^(?:([a-z_0-9]+)::)?(.*)::([A-Za-z_0-9]+)::([A-Z][A-Z_0-9]*)$', c)
+        if mc:
+            # associated constant of an inherent impl: `module::Type::NAME` is printed as `module::<impl at ..>::NAME` where it is defined
+            from .mirread import CRATE_ALIAS
+            crate = CRATE_ALIAS.get(mc.group(1), fr.item.crate) if mc.group(1) else fr.item.crate
+            modp = mc.group(2) if (mc.group(1) in CRATE_ALIAS or mc.group(1) is None) else (mc.group(1) + '::' + mc.group(2))
+            pat = re.compile(r'^' + re.escape(modp) + r'::<impl at ([^:>]+):(\d+):(\d+): [^>]*>::' + re.escape(mc.group(4)) + r'$')
+            cands = []
+            for k2, it in self.prog.items.items():
+                if it.kind != 'const' or k2[0] != crate: continue
+                mm = pat.match(it.name)
+                if not mm: continue
+                src = self.prog._src(mm.group(1)); line = src[int(mm.group(2)) - 1] if src and int(mm.group(2)) <= len(src) else ''
+                if re.search(r'\bimpl\b[^{]*\b' + re.escape(mc.group(3)) + r'\b', line): cands.append(k2)
+            if len(cands) == 1: return self.eval_const_item(fr, c, cands[0])
         if '::' in c and not c.startswith('{'): return FnItem(c)
         return Opaque(('const', c))
     def assoc_const(self, fr, ty, trait, name):
